@@ -33,14 +33,14 @@ REL = {
     "C10": ["StartBatch", "ExpireBatch", "UpdateContext/ok", "Call/ok", "EndBlock", "Restart", "SetParams"],
     "C11": ["StartBatch", "ExpireBatch", "Start", "Pause", "Kill", "Call/ok", "EndBlock", "ModCreate/ok", "ModStart", "Restart", "SetParams"],
     "C12": ["Respond/ok", "ExpireBatch", "StartBatch"],
-    "C13": ["Withdraw", "Respond/ok", "SetWithdrawAddr"],
+    "C13": ["Withdraw", "Respond/ok", "SetWithdrawAddr", "TxAbort"],
     "C14": ["Bind", "UpdateBinding", "Enable", "Respond/ok/bad", "ExpireBatch/settled", "SetParams", "PrepZeroHeight"],
-    "C15": ["Define", "Bind", "UpdateBinding", "Obs"],
+    "C15": ["Define", "Bind", "UpdateBinding", "Obs", "TxAbort", "Genesis"],
     "C16": ["ExpireBatch", "Respond/ok", "StartBatch/finished", "Restart"],
     "C17": ["Obs"],
     "C18": ["StartBatch/issued", "Obs"],
     "C19": ["Genesis", "PrepZeroHeight", "Restart"],
-    "C20": ["/panic", "Bind/rej", "Call/rej", "EndBlock"],
+    "C20": ["/panic", "Bind/rej", "Call/rej", "EndBlock", "TxAbort", "TxCommit"],
 }
 
 PROPS = {p: {} for p in TRACE_PROPS}
